@@ -106,11 +106,9 @@ def main():
         if state.build_ok:
             driver = common.Driver()
         tier = args.tier
-        if unproved and tier == 'quick':
-            tier_for_search = 'thorough'     # a broken obligation triggers the deeper failing-input search
-        else:
-            tier_for_search = tier
-        ctx = Ctx(pid, tier_for_search, seed, driver, replay=args.replay)
+        tier_for_search = tier
+        # a broken obligation triggers a wider failing-input search: four times the tier's budget
+        ctx = Ctx(pid, tier_for_search, seed, driver, replay=args.replay, scale=4.0 if unproved else 1.0)
         ctx.tier_label = tier
 
         if args.replay:
@@ -205,7 +203,7 @@ def main():
                                  'audit_log': getattr(state, 'audit_log', '')[-2000:],
                                  'extract_error': state.extract_error},
                     None, None, None, ', '.join(unproved),
-                    text='proof obligation(s) no longer check; the failing-input search (tier %s, %d cases) found no '
+                    text='proof obligation(s) no longer check; the failing-input search (tier %s x4, %d cases) found no '
                          'input on which the implementation violates the property' % (tier_for_search,
                                                                                       outcome.evaluations))
         path = common.write_replay(pid, f, seed)
